@@ -74,6 +74,14 @@ def _cases(tier, rng):
             ids = [rng.randint(1, 30000) for _ in nets.pits(ds)] if hasids else []
         yield {"k": 503, "args": [ds, [], outs, [int(hasids)], ids], "call": {"mode": mode, "dtype": dt},
                "group": f"rand-api-{mode}"}
+        # the same query on an object that answered basins() before pits were added (round-3 seed: a memoised map)
+        nonpit = [i for i in valid if ds[i] != i]
+        if nonpit and mode in ("default", "idxs") and rng.random() < 0.5:
+            added = rng.sample(nonpit, rng.randint(1, min(2, len(nonpit))))
+            ds2 = [(i if i in added else d) for i, d in enumerate(ds)]
+            ids2 = ([rng.randint(1, 30000) for _ in nets.pits(ds2)] if hasids else []) if mode == "default" else ids
+            yield {"k": 503, "args": [ds2, [], outs, [int(hasids)], ids2], "call": {"mode": mode, "dtype": dt, "from": ds, "addpits": added},
+                   "group": f"rand-api-{mode}-after-add-pits"}
         # region outlets on arbitrary label maps
         regions = [rng.choice([0, 1, 2, 3]) if ds[i] >= 0 or rng.random() < 0.5 else 0 for i in range(n)]
         yield {"k": 502, "args": [ds, regions, nets.topo_order(ds, rng)], "group": "rand-region-outlets"}
@@ -103,8 +111,13 @@ def impl(case):
         ds, _, outs, hasids, ids = a
         call = case["call"]
         n = len(ds)
-        # rasters: 1 x n (arbitrary links are fine for the generic graph kernels)
-        flw = make_raster(ds)
+        # rasters: 1 x n when coordinates are involved (arbitrary links are fine for the generic graph kernels)
+        if call.get("from"):
+            flw = make_raster(call["from"])
+            call_impl(flw.basins)
+            call_impl(flw.add_pits, idxs=np.array(call["addpits"]))
+        else:
+            flw = make_raster(ds, shape=(1, n)) if call["mode"] == "xy" else make_raster(ds)
         dt = DTYPES[call["dtype"]]
         kw = {}
         if call["mode"] == "xy":
@@ -118,7 +131,7 @@ def impl(case):
             return [[1]]
         if st != "ok":
             return [[-2], [st]]
-        dtype_ok = (v.dtype == (dt if hasids[0] else np.uint32)) and v.shape == (1, n)
+        dtype_ok = (v.dtype == (dt if hasids[0] else np.uint32)) and v.shape == flw.shape
         if not dtype_ok:
             return [[-3], [str(v.dtype)]]
         st2, ol = call_impl(flw.basin_outlets, v)
